@@ -6,9 +6,14 @@ package main
 // Built with -race in the thorough tier; the race detector's report is then the observable.
 
 import (
+	"bytes"
 	"context"
+	"encoding/json"
 	"fmt"
+	"io"
+	"net/http"
 	"os"
+	"runtime"
 	"sort"
 	"strings"
 	"sync"
@@ -19,6 +24,7 @@ import (
 	"github.com/superfly/macaroon/bundle"
 	"github.com/superfly/macaroon/flyio"
 	"github.com/superfly/macaroon/resset"
+	"github.com/superfly/macaroon/tp"
 )
 
 func init() { families["conc"] = famConc }
@@ -648,6 +654,77 @@ func sharedCacheRun(e *concEnv) string {
 	return "bundles-sharing-a-cache-stay-apart"
 }
 
+// the discharge client fetches the discharges of SEVERAL tickets in parallel goroutines and adds each to the bundle
+// as it arrives: every ticket gets its own discharge, exactly once, and the result verifies (goroutines that share
+// the loop variables all fetch the last ticket; `go.mod` says go 1.20: one variable per loop)
+type concTPStub struct {
+	ka  macaroon.EncryptionKey
+	loc string
+}
+
+func (t *concTPStub) RoundTrip(r *http.Request) (*http.Response, error) {
+	answer := func(code int, v any) (*http.Response, error) {
+		b, _ := json.Marshal(v)
+		return &http.Response{StatusCode: code, Header: http.Header{"Content-Type": {"application/json"}}, Body: io.NopCloser(bytes.NewReader(b)), Request: r}, nil
+	}
+	var req struct {
+		Ticket []byte `json:"ticket"`
+	}
+	body, _ := io.ReadAll(r.Body)
+	if json.Unmarshal(body, &req) != nil {
+		return answer(400, map[string]string{"error": "bad request"})
+	}
+	_, dm, err := macaroon.DischargeTicket(t.ka, t.loc, req.Ticket)
+	if err != nil {
+		return answer(400, map[string]string{"error": "bad ticket"})
+	}
+	s, _ := dm.String()
+	runtime.Gosched()
+	return answer(200, map[string]string{"discharge": s})
+}
+
+func clientParallelFetchRun(e *concEnv, n int) string {
+	ka := macaroon.NewEncryptionKey()
+	var toks []string
+	tickets := map[string]bool{}
+	for i := 0; i < n; i++ {
+		m, _ := macaroon.New([]byte("kid"), concLoc, e.key)
+		m.Add(&flyio.Organization{ID: uint64(i + 1), Mask: resset.ActionAll})
+		if m.Add3P(ka, concTP) != nil {
+			return "harness-error"
+		}
+		tickets[string(macaroon.GetCaveats[*macaroon.Caveat3P](&m.UnsafeCaveats)[0].Ticket)] = true
+		s, _ := m.String()
+		toks = append(toks, s)
+	}
+	hdr := "FlyV1 " + strings.Join(toks, ",")
+	c := tp.NewClient(concLoc, tp.WithHTTP(&http.Client{Transport: &concTPStub{ka: ka, loc: concTP}}))
+	out, err := c.FetchDischargeTokens(context.Background(), hdr)
+	if err != nil {
+		return "wrong-answer(parallel fetch failed: " + strings.ReplaceAll(err.Error(), " ", "_") + ")"
+	}
+	b, err := bundle.ParseBundle(concLoc, out)
+	if err != nil {
+		return "wrong-answer(result does not parse)"
+	}
+	per := map[string]int{}
+	bundle.ForEach(b, func(t bundle.Token) {
+		if m, ok := t.(bundle.Macaroon); ok && tickets[string(m.Nonce().KID)] {
+			per[string(m.Nonce().KID)]++
+		}
+	})
+	for t := range tickets {
+		if per[t] != 1 {
+			return fmt.Sprintf("lost-update(a ticket has %d discharges after a parallel fetch of %d tickets; %d tickets have one)", per[t], n, len(per))
+		}
+	}
+	sets, err := b.Verify(context.Background(), bundle.WithKey([]byte("kid"), e.key, nil))
+	if err != nil || len(sets) != n {
+		return fmt.Sprintf("wrong-answer(%d of %d permission tokens verify after the parallel fetch)", len(sets), n)
+	}
+	return "parallel-fetch-complete"
+}
+
 func famConc(r *Rng, o *Out, tier string) {
 	e := newConcEnv()
 	g, iters, wd := 4, 150, 4*time.Second
@@ -675,6 +752,7 @@ func famConc(r *Rng, o *Out, tier string) {
 	o.emit("(const panicking-callbacks)", panickingCallbackRun(e))
 	o.emit("(const returned-values-stable)", returnedValuesRun(e))
 	o.emit("(const bundles-sharing-a-cache-stay-apart)", sharedCacheRun(e))
+	o.emit("(const parallel-fetch-complete)", clientParallelFetchRun(e, 8))
 	hangs := 0
 	for _, a := range all {
 		for _, w := range writers {
